@@ -1703,8 +1703,14 @@ namespace cds { namespace intrusive {
                             bkoff();
                             m_Stat.onMarkFailed();
                         }
-                        else if ( pSucc.bits() != nMask )
+                        else if ( pSucc.bits() != nMask ) {
+                            // pDel is being removed by an operation of the other kind (erase vs extract).
+                            // That removal takes effect only when level 0 is marked,
+                            // the item must not be reported as absent before
+                            while ( pDel->next( 0 ).load( memory_model::memory_order_acquire ).bits() == 0 )
+                                bkoff();
                             return false;
+                        }
                     }
                 }
             }
